@@ -13,11 +13,14 @@
 (***************************************************************************)
 EXTENDS Sem, Json
 
-CONSTANTS Durations, Sizes, MaxPairs, Plus, Times, LeafKind, Tag
+CONSTANTS Durations, Sizes, MaxPairs, Plus, Times, LeafKind, Tag, MaxParamT
 
-VARIABLE g   \* [T, np, size, batch, timedep]
+VARIABLE g   \* [T, np, size, batch, timedep, param]
 
-RP == <<Q(-1, 1), Zero, Q(1, 2), Q(2, 1)>>
+\* sample points of the free real parameter x (positive for the log-valued leaves, where the
+\* parameter enters as log x)
+RP == IF LeafKind = "log" THEN <<Q(1, 2), One, Q(2, 1), Q(3, 1)>>
+      ELSE <<Q(-1, 1), Zero, Q(1, 2), Q(2, 1)>>
 
 \* the second pair's names are chosen so that the previous names and the current names sort
 \* in different orders (a pairing by sort position instead of by the step map would differ)
@@ -43,18 +46,32 @@ Trans(p) ==
   IN [c |-> "Ten", ins |-> ins, dt |-> IF LeafKind = "bool" THEN 2 ELSE 0, sh |-> <<>>,
       data |-> [k \in 1..n |-> LeafValue(k)]]
 
+\* a transition that depends on a free real parameter x: every step's factor is
+\* trans (x) x  (trans (x) log x for log-valued leaves); x is never eliminated
+ParamTerm == IF LeafKind = "log"
+             THEN [c |-> "Un", op |-> [n |-> "log", p |-> <<>>], arg |-> [c |-> "Var", name |-> "x", dom |-> RealD]]
+             ELSE [c |-> "Var", name |-> "x", dom |-> RealD]
+ParamAt(xv) == IF LeafKind = "log"
+               THEN [c |-> "Un", op |-> [n |-> "log", p |-> <<>>], arg |-> [c |-> "Num", v |-> xv, dt |-> 0]]
+               ELSE [c |-> "Num", v |-> xv, dt |-> 0]
+TransSym(p) == IF p.param THEN [c |-> "Bin", op |-> [n |-> Times, p |-> <<>>], l |-> Trans(p), r |-> ParamTerm]
+               ELSE Trans(p)
+\* the transition with x fixed at xv (xv is ignored when the problem has no parameter)
+TransAt(p, xv) == IF p.param THEN [c |-> "Bin", op |-> [n |-> Times, p |-> <<>>], l |-> Trans(p), r |-> ParamAt(xv)]
+                  ELSE Trans(p)
+
 Var(n, sz) == [c |-> "Var", name |-> n, dom |-> BintD(sz)]
 NumT(i, sz) == [c |-> "Num", v |-> RInt(i), dt |-> sz]
 
 \* trans at time t with the previous states renamed to the interior names
-InstMid(p, t) ==
-  [c |-> "Sub", arg |-> Trans(p),
+InstMid(p, t, xv) ==
+  [c |-> "Sub", arg |-> TransAt(p, xv),
    subs |-> (IF p.timedep THEN << <<"time", NumT(t, p.T)>> >> ELSE <<>>)
             \o [k \in 1..p.np |-> <<PrevName(k), Var(MidName(k), p.size)>>]]
 
-Inst0(p) ==
-  IF p.timedep THEN [c |-> "Sub", arg |-> Trans(p), subs |-> << <<"time", NumT(0, p.T)>> >>]
-  ELSE Trans(p)
+Inst0(p, xv) ==
+  IF p.timedep THEN [c |-> "Sub", arg |-> TransAt(p, xv), subs |-> << <<"time", NumT(0, p.T)>> >>]
+  ELSE TransAt(p, xv)
 
 \* a tensor leaf holding the table of an annotated term (same inputs, same order)
 Materialize(a) ==
@@ -62,44 +79,55 @@ Materialize(a) ==
   [c |-> "Ten", ins |-> [k \in 1..Len(a.ti) |-> <<a.ti[k][1], a.ti[k][2].dt>>],
    dt |-> a.to.dt, sh |-> <<>>, data |-> [k \in 1..Len(tb) |-> tb[k].v[1]]]
 
-StepTerm(p, acc, t) ==
+StepTerm(p, acc, t, xv) ==
   [c |-> "Red", op |-> Plus,
    vars |-> [k \in 1..p.np |-> <<MidName(k), BintD(p.size)>>],
    arg |-> [c |-> "Bin", op |-> [n |-> Times, p |-> <<>>],
             l |-> [c |-> "Sub", arg |-> acc,
                    subs |-> [k \in 1..p.np |-> <<CurrName(k), Var(MidName(k), p.size)>>]],
-            r |-> InstMid(p, t)]]
+            r |-> InstMid(p, t, xv)]]
 
-RECURSIVE Fold(_, _)
-\* the materialised product of the first t+1 factors
-Fold(p, t) ==
-  IF t = 0 THEN Materialize(Ann(Inst0(p)))
-  ELSE Materialize(Ann(StepTerm(p, Fold(p, t - 1), t)))
+RECURSIVE Fold(_, _, _)
+\* the materialised product of the first t+1 factors (x fixed at xv)
+Fold(p, t, xv) ==
+  IF t = 0 THEN Materialize(Ann(Inst0(p, xv)))
+  ELSE Materialize(Ann(StepTerm(p, Fold(p, t - 1, xv), t, xv)))
 
 Problems ==
-  {p \in [T : Durations, np : 1..MaxPairs, size : Sizes, batch : BOOLEAN, timedep : BOOLEAN] :
+  {p \in [T : Durations, np : 1..MaxPairs, size : Sizes, batch : BOOLEAN, timedep : BOOLEAN, param : BOOLEAN] :
      \* keep the tables small: two pairs only with size 2, large durations only with size 2
      /\ p.np = 2 => p.size <= 2
-     /\ p.size >= 3 => p.T <= 7}
+     /\ p.size >= 3 => p.T <= 7
+     \* a free real parameter: not for booleans; one pair, durations <= MaxParamT
+     /\ p.param => (LeafKind # "bool" /\ p.np = 1 /\ p.T <= MaxParamT)}
 
 Init == g \in Problems
 Next == UNCHANGED g
 Spec == Init /\ [][Next]_g
 
+\* the expected table: without a parameter the fold's table; with one, the input x comes first
+\* and the table is the concatenation over the sample points of x of the fold with x fixed
+RECURSIVE ConcatTabs(_)
+ConcatTabs(ts) == IF ts = <<>> THEN <<>> ELSE Head(ts) \o ConcatTabs(Tail(ts))
 Emit ==
-  LET o == Ann(Fold(g, g.T - 1))
-      tb == Table(o)
+  LET o == Ann(Fold(g, g.T - 1, RP[1]))
+      tb == IF g.param THEN ConcatTabs([j \in 1..Len(RP) |-> Table(Ann(Fold(g, g.T - 1, RP[j])))])
+            ELSE Table(o)
+      ins == IF g.param THEN << <<"x", RealD>> >> \o o.ti ELSE o.ti
+      pts == IF g.param THEN << [j \in 1..Len(RP) |-> Scalar(RP[j])] >> \o [k \in 1..Len(o.ti) |-> <<>>]
+             ELSE [k \in 1..Len(o.ti) |-> <<>>]
   IN TabDefined(tb) =>
      PrintT(ToJson([tag |-> Tag, plus |-> Plus, times |-> Times, T |-> g.T,
-                    trans |-> Trans(g), timedep |-> g.timedep,
+                    trans |-> TransSym(g), timedep |-> g.timedep, param |-> g.param,
                     step |-> [k \in 1..g.np |-> <<PrevName(k), CurrName(k)>>],
-                    sig |-> [T |-> g.T, np |-> g.np, size |-> g.size, batch |-> g.batch, timedep |-> g.timedep],
-                    exp |-> [ins |-> o.ti, out |-> o.to, pts |-> [k \in 1..Len(o.ti) |-> <<>>], tab |-> tb,
-                             core |-> FALSE, dep |-> DependsOnTab(o.ti, tb)]]))
+                    sig |-> [T |-> g.T, np |-> g.np, size |-> g.size, batch |-> g.batch, timedep |-> g.timedep,
+                             param |-> g.param],
+                    exp |-> [ins |-> ins, out |-> o.to, pts |-> pts, tab |-> tb,
+                             core |-> FALSE, dep |-> DependsOnTab(ins, tb)]]))
 
 \* model-level sanity: the fold's inputs are the batch input, the first prev and the last curr
 Inv_FoldInputs ==
-  LET o == Ann(Fold(g, g.T - 1)) IN
+  LET o == Ann(Fold(g, g.T - 1, RP[1])) IN
   Names(o.ti) = (IF g.batch THEN {"b"} ELSE {})
                 \cup {PrevName(k) : k \in 1..g.np} \cup {CurrName(k) : k \in 1..g.np}
 =============================================================================
